@@ -156,6 +156,138 @@ def check_C09(tier):
 
 
 import scenarios as sc  # noqa: E402
+import models as md  # noqa: E402
+import concurrent.futures as cf  # noqa: E402
+
+
+def impl_model_stage(prefixes, expect_fail=()):
+    """Stage factory: exhaustive TLC runs of the fine-grained model MQImpl on the model scenarios whose name
+    starts with one of `prefixes`, then behaviours generated from it are replayed in lockstep on the real
+    crate (op kind, location and value compared at every step) and the recorded API traces validated."""
+    def stage(wd, v, cov, tier):
+        md.copy_specs(wd)
+        allm = md.standard_models(tier) + md.known_finding_models()
+        sel = [m for m in allm if any(m["name"].startswith(p) for p in prefixes)]
+        if tier == "quick":
+            sel = [m for m in sel if m["N"] == 1 or m["name"].startswith(("spsc", "view", "norecv", "unsub2"))]
+        cov.setdefault("model_configs", [])
+        cov.setdefault("lockstep_matched", 0)
+        cov.setdefault("lockstep_drift", 0)
+        cov.setdefault("model_invariant_failures", [])
+
+        def run_exh(m):
+            mod, cfg = md.write_model(m, wd, False)
+            return m, vlib.tlc(mod, cfg, os.path.join(wd, "tlc_" + m["name"]), workers=4, timeout=1200, cwd=wd)
+        with cf.ThreadPoolExecutor(max_workers=4) as ex:
+            results = list(ex.map(run_exh, sel))
+        for m, r in results:
+            if r["error"] == "timeout" or (r["error"] and "Invariant" not in r["error"] and "violated" not in r["out"]):
+                raise vlib.ToolError("TLC failed on %s: %s\n%s" % (m["name"], r["error"], r["out"][-1500:]))
+            failed = r["error"] is not None
+            inv = ""
+            if failed:
+                import re as _re
+                mm = _re.search(r"Invariant (\w+) is violated", r["out"])
+                inv = mm.group(1) if mm else "?"
+            cov["states"] += r["distinct"]
+            cov["transitions"] += r["generated"]
+            cov["model_configs"].append({"name": m["name"], "N": m["N"], "bcast": m["bcast"], "wait": m["wait"],
+                                         "distinct_states": r["distinct"], "invariant_violated": inv or None})
+            if failed and m["name"] not in expect_fail:
+                cov["model_invariant_failures"].append({"model": m["name"], "invariant": inv})
+                log("  [model] %s: invariant %s violated in the specification (design-level finding; "
+                    "the harness must exhibit it on the code before it counts)" % (m["name"], inv))
+            elif not failed and m["name"] in expect_fail:
+                log("  [model] %s: expected counterexample (known finding) not found" % m["name"])
+        log("  [model] MQImpl exhaustively: %d configs, %d distinct states" %
+            (len(results), sum(r["distinct"] for _, r in results)))
+        # behaviours -> lockstep replay
+        gen = [m for m in sel if m["name"] not in expect_fail]
+
+        def run_gen(m):
+            big = len(m["threads"]) > 2
+            mod, cfg = md.write_model(m, wd, True, max_pre=(1 if tier == "quick" else 2))
+            extra = None
+            if big or tier == "quick":
+                # random behaviours instead of the full bounded enumeration
+                with open(cfg) as f:
+                    c = f.read().replace("CONSTRAINT PreBound\n", "")
+                with open(cfg, "w") as f:
+                    f.write(c)
+                extra = ["-simulate", "num=%d" % (150 if tier == "quick" else 1500), "-depth", "600",
+                         "-seed", str(vlib.seed())]
+            r = vlib.tlc(mod, cfg, os.path.join(wd, "tlch_" + m["name"]), workers=(1 if extra else 4), timeout=900,
+                         cwd=wd, extra=extra)
+            return m, r, vlib.parse_printed(r["out"], "REPLAY")
+        with cf.ThreadPoolExecutor(max_workers=8) as ex:
+            gens = list(ex.map(run_gen, gen))
+        scns, lines = [], []
+        for m, r, hists in gens:
+            seen, uniq = set(), []
+            for h in hists:
+                k = json.dumps(h)
+                if k not in seen:
+                    seen.add(k)
+                    uniq.append(h)
+            hs, skip = md.to_harness(m)
+            scns.append(hs)
+            lines += md.behaviours_to_replay(m, uniq, skip)
+            cov["generated_behaviours"] += len(uniq)
+        if not lines:
+            return
+        scn_file = os.path.join(wd, "impl.scn.ndjson")
+        vlib.write_scenarios(scn_file, scns)
+        # shard the replay lines
+        shards = 8
+        files = []
+        for k in range(shards):
+            part = lines[k::shards]
+            if not part:
+                continue
+            f = os.path.join(wd, "impl.replay.%d.ndjson" % k)
+            with open(f, "w") as fh:
+                for l in part:
+                    fh.write(json.dumps(l) + "\n")
+            files.append((f, os.path.join(wd, "impl.%d.api.ndjson" % k), os.path.join(wd, "impl.%d.sched.ndjson" % k)))
+        vlib.build_harness()
+        with cf.ThreadPoolExecutor(max_workers=shards) as ex:
+            stats = list(ex.map(lambda t: vlib.run_harness(["replay", "--scn", scn_file, "--sched", t[0], "--out", t[1],
+                                                            "--sched-out", t[2]]), files))
+        drift_scn = set()
+        for st in stats:
+            if "crash" in st:
+                v.crash(st, wd)
+                continue
+            e = st.get("extra", {})
+            cov["lockstep_matched"] += e.get("lockstep_matched", 0)
+            cov["lockstep_drift"] += e.get("lockstep_drift", 0)
+            if e.get("first_drift"):
+                drift_scn.add(e["first_drift"]["scn"])
+                v.notes.append("model-drift: the code no longer follows MQImpl in scenario %s at op %s: expected %s got %s"
+                               % (e["first_drift"]["scn"], e["first_drift"]["at"], e["first_drift"]["expected"],
+                                  e["first_drift"]["got"]))
+        ms = vlib.merge_stats(stats)
+        log("  [replay] %d TLC-generated behaviours replayed in lockstep: %d matched op by op, %d drifted" %
+            (len(lines), cov["lockstep_matched"], cov["lockstep_drift"]))
+        val = vlib.validate_many([t[1] for t in files], wd)
+        log("  [tlc] their API traces: %d accepted, %d rejected" % (val["accepted"], len(val["rejected"])))
+        by_name = {s["name"]: s for s in scns}
+        sb = vlib.load_scheds([t[2] for t in files])
+        for rej in val["rejected"]:
+            v.judge_rejected(rej, wd, sb, by_name, source="lockstep-replay")
+        cov["states"] += val["states"]
+        cov["transitions"] += val["generated"]
+        cov["traces_validated_against_impl"] += val["accepted"]
+        cov["evaluations"] += ms["runs"]
+        cov["distinct_nontrivial"] += ms["nontrivial"]
+        if drift_scn:
+            # drift-directed exploration: the code does something else there, search that scenario harder
+            extra = [s for s in scns if s["name"] in drift_scn]
+            log("  [drift] exploring %d drifting scenario(s) natively" % len(extra))
+            concurrent_stage("drift", wd, extra, v, cov,
+                             [("dfs", 20000 if tier == "quick" else 200000, 2), ("random", 1500, 0), ("pct", 1500, 0)],
+                             label="drift")
+    return stage
 
 
 def plans_for(tier, dfs_cap_quick=600, dfs_cap_thorough=20000, rnd_quick=150, rnd_thorough=3000):
@@ -188,6 +320,9 @@ def generic_check(prop, tier, own, scns, plans, rule, gens=None, extra_assume=()
     return rc
 
 
+RULE_IMPL = ("; design level: TLC explores the op-granular model MQImpl exhaustively on small configurations (invariants "
+             "NoBad/ExactlyOnceInOrder/Window/QuiescentClean/FinalMatches/NoStuck) and behaviours generated from it are "
+             "replayed in lockstep on the real crate (kind, location and value of every operation compared)")
 RULE_CONC = ("scenario families (topology x program templates x capacity x wait strategy) run on the real crate under "
              "the deterministic scheduler: preemption-bounded DFS over shim-op interleavings (bound and run cap per "
              "tier), uniform random walks and PCT; every distinct recorded API/ledger trace is validated by TLC against "
@@ -200,7 +335,8 @@ def check_C01(tier):
     scns = (sc.traffic("C01", "bcast", caps=caps) + sc.traffic("C01", "mpmc", caps=caps) +
             sc.uni_traffic("C01", "bcast", caps=caps) + sc.uni_traffic("C01", "mpmc", caps=caps) +
             sc.traffic("C01", "bcast", fut=True, caps=caps[:2]) + sc.traffic("C01", "mpmc", fut=True, caps=caps[:1]))
-    return generic_check("C01", tier, ["C01C02"], scns, plans_for(tier), RULE_CONC)
+    return generic_check("C01", tier, ["C01C02"], scns, plans_for(tier), RULE_CONC + RULE_IMPL,
+                         models=[impl_model_stage(["spsc", "mpsc", "spmc", "bcast2", "view"])])
 
 
 def check_C02(tier):
@@ -209,7 +345,8 @@ def check_C02(tier):
               (2, [1, 1], 1, "brecv", True, 0), (1, [1, 1], 3, "recv", False, 3)]
     scns = (sc.traffic("C02", "bcast", caps=caps, shapes=shapes) + sc.traffic("C02", "mpmc", caps=caps, shapes=shapes) +
             sc.population("C02p", "bcast", caps=caps[:2]))
-    return generic_check("C02", tier, ["C01C02"], scns, plans_for(tier), RULE_CONC)
+    return generic_check("C02", tier, ["C01C02"], scns, plans_for(tier), RULE_CONC + RULE_IMPL,
+                         models=[impl_model_stage(["mpsc", "bcast2", "spmc", "popsend"])])
 
 
 def check_C03(tier):
@@ -226,7 +363,8 @@ def check_C03(tier):
             gens.append(dict(family=fam, fut=fut, cap=cap, depth=3, ops=["fillprobe"]))
     return generic_check("C03", tier, ["C03"], scns, plans_for(tier), RULE_CONC +
                          "; plus a fill/drain/fill probe for every requested capacity 0..9", gens=None,
-                         models=[lambda wd, v, cov, tier: capacity_probe(wd, v, cov, tier)])
+                         models=[lambda wd, v, cov, tier: capacity_probe(wd, v, cov, tier),
+                                 impl_model_stage(["mpsc", "bcast2", "spsc", "rmstream"])])
 
 
 def capacity_probe(wd, v, cov, tier):
@@ -250,7 +388,8 @@ def check_C04(tier):
             sc.population("C04p", "bcast", caps=caps[:2]))
     return generic_check("C04", tier, ["C04"], scns, plans_for(tier), RULE_CONC +
                          "; the payload's Clone and the view closure contain a scheduling point, so the real code is "
-                         "interleaved inside the clone/view")
+                         "interleaved inside the clone/view" + RULE_IMPL,
+                         models=[impl_model_stage(["spmc_b", "disc_b", "view", "bcast2"])])
 
 
 def check_C05(tier):
@@ -276,7 +415,8 @@ def check_C06(tier):
             sc.population("C06p", "mpmc", caps=caps[:2]) + sc.add_stream_scn("C06a", caps=caps[:2]))
     return generic_check("C06", tier, ["C06"], scns, plans_for(tier), RULE_CONC +
                          "; every scenario ends with all threads joined and a single-threaded probe (drain every stream "
-                         "to Empty, send until Full), whose calls are not overlapped and must equal the model exactly")
+                         "to Empty, send until Full), whose calls are not overlapped and must equal the model exactly"
+                         + RULE_IMPL, models=[impl_model_stage(["spsc", "rmstream", "popsend", "poprecv", "unsub2"])])
 
 
 def check_C07(tier):
@@ -284,7 +424,8 @@ def check_C07(tier):
     scns = (sc.disconnect("C07", "bcast", caps=caps) + sc.disconnect("C07", "mpmc", caps=caps) +
             sc.disconnect("C07", "bcast", caps=caps[:2], fut=True) + sc.disconnect("C07", "mpmc", caps=caps[:1], fut=True) +
             sc.blocking("C07b", "bcast", caps=caps[:1], waits=("busy", "block00")))
-    return generic_check("C07", tier, ["C07"], scns, plans_for(tier), RULE_CONC)
+    return generic_check("C07", tier, ["C07"], scns, plans_for(tier), RULE_CONC + RULE_IMPL,
+                         models=[impl_model_stage(["disc", "blockdisc"])])
 
 
 def check_C08(tier):
@@ -296,26 +437,30 @@ def check_C08(tier):
         s["livelock"] = 3000
     return generic_check("C08", tier, ["C08"], scns, plans_for(tier), RULE_CONC +
                          "; a run that ends with a thread blocked (deadlock) or spinning without any state change "
-                         "(livelock) is reported as a stuck event, accepted only if the model has nothing for that thread")
+                         "(livelock) is reported as a stuck event, accepted only if the model has nothing for that thread"
+                         + RULE_IMPL, models=[impl_model_stage(["block", "blockdisc"])])
 
 
 def check_C10(tier):
     caps = caps_for(tier)
     scns = (sc.add_stream_scn("C10", caps=caps) + sc.add_stream_scn("C10", caps=caps[:2], fut=True) +
             sc.add_stream_scn("C10", caps=caps[:2], shared_parent=True))
-    return generic_check("C10", tier, ["C01C02", "C03", "C06"], scns, plans_for(tier), RULE_CONC)
+    return generic_check("C10", tier, ["C01C02", "C03", "C06"], scns, plans_for(tier), RULE_CONC + RULE_IMPL,
+                         models=[impl_model_stage(["addsole", "addshared"], expect_fail=("addshared_1",))])
 
 
 def check_C11(tier):
     caps = caps_for(tier)
     scns = (sc.remove_stream("C11", "bcast", caps=caps) + sc.remove_stream("C11", "bcast", caps=caps[:2], fut=True))
-    return generic_check("C11", tier, ["C11", "C06", "C03", "C01C02", "C08", "C14"], scns, plans_for(tier), RULE_CONC)
+    return generic_check("C11", tier, ["C11", "C06", "C03", "C01C02", "C08", "C14"], scns, plans_for(tier),
+                         RULE_CONC + RULE_IMPL, models=[impl_model_stage(["rmstream", "unsub2"])])
 
 
 def check_C12(tier):
     caps = caps_for(tier)
     scns = sc.population("C12", "bcast", caps=caps) + sc.population("C12", "mpmc", caps=caps)
-    return generic_check("C12", tier, ["C01C02", "C03", "C06", "C04", "C05"], scns, plans_for(tier), RULE_CONC)
+    return generic_check("C12", tier, ["C01C02", "C03", "C06", "C04", "C05"], scns, plans_for(tier),
+                         RULE_CONC + RULE_IMPL, models=[impl_model_stage(["popsend", "poprecv"])])
 
 
 def check_C13(tier):
@@ -330,7 +475,8 @@ def check_C13(tier):
                          ops=["send", "start_send", "drop", "unsub", "add_stream", "clone", "recv"]
                          if fut else ["send", "drop", "unsub", "add_stream", "clone", "recv"]))
     return generic_check("C13", tier, ["C13", "C14"], scns, plans_for(tier), RULE_CONC +
-                         "; plus all orders of dropping receivers generated from MQAbsGen", gens=gens)
+                         "; plus all orders of dropping receivers generated from MQAbsGen" + RULE_IMPL, gens=gens,
+                         models=[impl_model_stage(["norecv"])])
 
 
 CHECKS = {"C01": check_C01, "C02": check_C02, "C03": check_C03, "C04": check_C04, "C05": check_C05, "C06": check_C06,
